@@ -27,7 +27,7 @@ func HookKinds() []string {
 	return append(append([]string{}, hookKinds...), "extendUnexported", "extendUnexportedCtx")
 }
 
-var hookKinds = []string{"extend", "extendExt", "extendErr", "extendCtx", "extendConv", "extendRegex", "method", "methodErr", "mapFunc", "mapFuncErr", "mapNoSource", "underlying", "underlyingMethod", "extendErrCtx", "extendSame", "extendExtCtxRegex", "delegate", "delegateErr", "mapWhole", "mapWholePtr", "underlyingErr", "basicErr", "srcMethodCtx"}
+var hookKinds = []string{"extend", "extendExt", "extendErr", "extendCtx", "extendConv", "extendRegex", "method", "methodErr", "mapFunc", "mapFuncErr", "mapNoSource", "underlying", "underlyingMethod", "extendErrCtx", "extendSame", "extendExtCtxRegex", "delegate", "delegateErr", "mapWhole", "mapWholePtr", "underlyingErr", "basicErr", "srcMethodCtx", "srcMethodErr"}
 
 // CustomCase builds one case mixing automatic rules with custom functions.
 func CustomCase(r *rand.Rand, name string, o CustomOpts) *Case {
@@ -57,6 +57,7 @@ func CustomCase(r *rand.Rand, name string, o CustomOpts) *Case {
 	fields := map[string]vref.FieldSpec{}
 	var declared []*Method
 	needCtxA, needCtxB, fallible, underlying := false, false, false, false
+	tyMethods := ""
 	underlyingFlag := false
 	kindsUsed := map[string]bool{}
 	npairs := 1 + r.Intn(3)
@@ -72,7 +73,7 @@ func CustomCase(r *rand.Rand, name string, o CustomOpts) *Case {
 				kind, forcePriv, forcePrivCtx = "extend", true, true
 			}
 		} else if o.Fallible && i == 1 {
-			kind = []string{"extendErr", "methodErr", "mapFuncErr", "extendErrCtx", "delegateErr", "underlyingErr", "basicErr", "srcMethodCtx"}[r.Intn(7)]
+			kind = []string{"extendErr", "methodErr", "mapFuncErr", "extendErrCtx", "delegateErr", "underlyingErr", "basicErr", "srcMethodCtx", "srcMethodErr"}[r.Intn(7)]
 		}
 		if o.WrapLevel == "meth" {
 			// wrapping configured on the METHOD: only positions that are converted inline by that method
@@ -269,6 +270,20 @@ func CustomCase(r *rand.Rand, name string, o CustomOpts) *Case {
 					sS.Fields, tS.Fields = append(sS.Fields, F(f, Ptr(Named(bs)))), append(tS.Fields, F(f, Ptr(Named(bt))))
 				}
 			}
+		case "srcMethodErr":
+			// a fallible method of the source struct used as the source of a target field (getter with error)
+			mn := fmt.Sprintf("Get%d", i)
+			tyMethods += fmt.Sprintf("func (s S) %s() (int, error) {\n\tif err := vref.Fail(int64(s.Plain)*1000 + %d); err != nil {\n\t\treturn 0, err\n\t}\n\treturn s.Plain*10 + %d, nil\n}\n\n", mn, 900+i, i)
+			if r.Intn(2) == 0 {
+				tS.Fields = append(tS.Fields, F(mn, Basic("int")))
+				fields[mn] = vref.FieldSpec{Path: []string{mn}}
+			} else {
+				tf := fmt.Sprintf("From%s", mn)
+				tS.Fields = append(tS.Fields, F(tf, Basic("int")))
+				methLines = append(methLines, "map "+mn+" "+tf)
+				fields[tf] = vref.FieldSpec{Path: []string{mn}}
+			}
+			fallible = true
 		case "srcMethodCtx":
 			// a method of the source struct whose parameters are contexts, used as the source of a target field
 			mn := fmt.Sprintf("Disp%d", i)
@@ -386,7 +401,7 @@ func CustomCase(r *rand.Rand, name string, o CustomOpts) *Case {
 				}
 			}
 		}
-		if strings.HasPrefix(kind, "map") || strings.HasPrefix(kind, "underlying") || kind == "basicErr" || kind == "srcMethodCtx" {
+		if strings.HasPrefix(kind, "map") || strings.HasPrefix(kind, "underlying") || kind == "basicErr" || strings.HasPrefix(kind, "srcMethod") {
 			continue
 		}
 		// positions of the pair inside S / T
@@ -564,6 +579,9 @@ func CustomCase(r *rand.Rand, name string, o CustomOpts) *Case {
 	// custom function files
 	header := func(pkg string) string {
 		return "package " + pkg + "\n\nimport (\n\t\"fmt\"\n\t\"vcase/vref\"\n\t\"" + c.Root + "/ty\"\n)\n\nvar _ = fmt.Sprint\nvar _ = vref.Fail\nvar _ ty.S\n\n"
+	}
+	if tyMethods != "" {
+		ty.Files = map[string]string{"methods.go": "package ty\n\nimport \"vcase/vref\"\n\n" + tyMethods}
 	}
 	conv.Files["funcs.go"] = header("conv") + funcsLocal.String()
 	if funcsExt.Len() > 0 {
